@@ -754,3 +754,74 @@ M('c13-twin-guard-early-return', 'C13', 'silent',
    '''        if not envelope.sender:
             return
         self._pool_spawn('bounce', self._bounce, envelope, reply)''', 1))
+
+# ---------------------------------------------------------------- C02
+ES = 'slimta/edge/smtp.py'
+EW = 'slimta/edge/wsgi.py'
+PQ = 'slimta/queue/proxy.py'
+M('c02-smtp-first-result-only', 'C02', 'fire:R2.1',
+  (ES, '''        for _, result in results:
+            if isinstance(result, QueueError):''', '''        for result in [results[0][1]]:
+            if isinstance(result, QueueError):''', 1))
+M('c02-wsgi-first-result-only', 'C02', 'fire:R2.1',
+  (EW, '''        for _, result in results:
+            if isinstance(result, QueueError):
+                default_reply = Reply('451', '4.3.0 Error queuing message')
+                reply = getattr(result, 'reply', default_reply)
+                raise _build_http_response(reply)
+            elif isinstance(result, RelayError):
+                relay_reply = result.reply
+                raise _build_http_response(relay_reply)''',
+   '''        result = results[0][1]
+        if isinstance(result, QueueError):
+            default_reply = Reply('451', '4.3.0 Error queuing message')
+            reply = getattr(result, 'reply', default_reply)
+            raise _build_http_response(reply)
+        elif isinstance(result, RelayError):
+            relay_reply = result.reply
+            raise _build_http_response(relay_reply)''', 1))
+M('c02-smtp-relayerror-ignored', 'C02', 'fire:R2.1',
+  (ES, '''            elif isinstance(result, RelayError):
+                relay_reply = result.reply
+                reply.copy(relay_reply)
+                break
+''', '', 1))
+M('c02-imap-no-join', 'C02', 'fire:R2.2',
+  (Q, '''        for thread in threads:
+            thread.join()
+            ret.append(thread.exception or thread.value)''',
+   '''        for thread in threads:
+            ret.append(thread.exception or thread.value)''', 1))
+M('c02-imap-stop-at-first-error', 'C02', 'fire:R2.2',
+  (Q, '''            thread.join()
+            ret.append(thread.exception or thread.value)''',
+   '''            thread.join()
+            ret.append(thread.exception or thread.value)
+            if thread.exception:
+                break''', 1))
+M('c02-enqueue-spawns-writes', 'C02', 'fire:R2.2',
+  (Q, '''        ids = self._pool_imap('store', self.store.write, envelopes,
+                              repeat(now))''', '''        ids = [self._pool_spawn('store', self.store.write, env, now)
+               for env in envelopes]''', 1))
+M('c02-reply-before-handler', 'C02', 'fire:R2.3',
+  (SRV, '''        self._call_custom_handler('HAVE_DATA', reply, data, err)
+
+        self.io.send_reply(reply)
+        self.io.flush_send()''', '''        self.io.send_reply(reply)
+        self.io.flush_send()
+        self._call_custom_handler('HAVE_DATA', reply, data, err)''', 1))
+M('c02-proxy-ignores-result', 'C02', 'fire:R2.4',
+  (PQ, '''            results = self.relay._attempt(envelope, 0)''',
+   '''            self.relay._attempt(envelope, 0)
+            results = None''', 1))
+M('c02-proxy-no-entry-test', 'C02', 'fire:R2.4',
+  (PQ, '''            for rcpt_result in results:
+                if isinstance(rcpt_result, RelayError):
+                    return [(envelope, rcpt_result)]''', '''            pass''', 1))
+M('c02-twin-any-scan', 'C02', 'silent',
+  (ES, '''            elif isinstance(result, RelayError):
+                relay_reply = result.reply
+                reply.copy(relay_reply)
+                break''', '''            if isinstance(result, RelayError):
+                reply.copy(result.reply)
+                break''', 1))
